@@ -719,6 +719,70 @@ impl Sess {
                 m.trigger_key_interrupt();
                 ok()
             }
+            ["spec.cpuread", a] => match a.parse::<u8>() {
+                // "reads never change any state", for a read the CPU performs: on a copy of the machine as the history
+                // left it (bus, board, interrupt mask / status / flip-flop), an instruction `LD R0, (a)` is placed at PC
+                // and executed from a fresh fetch; RAM, I/O registers, interrupt mask and status and the board must be
+                // the same before it and after it (and the NOP that follows)
+                Ok(a) => {
+                    use emulator_2a_lib::machine::RegisterNumber as RN;
+                    let mut c = m.clone();
+                    let pc = *c.registers().get(RN::R3);
+                    if c.bus().verif_state().timer_enabled || pc >= 0xE0 {
+                        // a running timer changes the status register by itself; code must lie in RAM
+                        "pure".to_string()
+                    } else {
+                        let st = c.verif_state();
+                        let f = VerifRawState {
+                            address: 0,
+                            instruction: 2,
+                            pending_register_write: None,
+                            pending_flag_write: false,
+                            pending_wait_for_memory: false,
+                            ..st
+                        };
+                        c.raw_mut().verif_force(&f, State::Running);
+                        let fr = *c.registers().get(RN::R4);
+                        c.raw_mut().registers_mut().set(RN::R4, fr & 0x07); // no interrupt entry in between
+                        for (k, b) in [0xFFu8, a, 0x10, 0x02, 0x02].iter().enumerate() {
+                            c.raw_mut().bus_mut().write(pc.wrapping_add(k as u8), *b);
+                        }
+                        let view = |c: &Machine| {
+                            let bus = c.bus();
+                            let b = bus.verif_state();
+                            let bd = bus.board();
+                            format!("ram={} out={}{} in={:?} mask={} status={} uart={}{} bd={}{}{}{}{}{}",
+                                fnv(&bus.memory()[..]), hex2(bus.output_fe()), hex2(bus.output_ff()), b.input_reg, hex2(b.micr),
+                                hex2(bus.read(0xF9)), hex2(b.ucr), hex2(b.uart_send), hex2(*bd.digital_input1()), hex2(*bd.digital_output1()),
+                                hex2(*bd.digital_output2()), hex2(bd.dasr().bits()), hex2(bd.daisr().bits()), hex2(bd.daicr().bits()))
+                        };
+                        let to_boundary = |c: &mut Machine| {
+                            let mut g = 0;
+                            let mut left = false;
+                            loop {
+                                c.raw_mut().trigger_clock_edge();
+                                if c.state() != State::Running {
+                                    let st = c.verif_state();
+                                    c.raw_mut().verif_force(&st, State::Running);
+                                }
+                                g += 1;
+                                if !c.is_instruction_done() {
+                                    left = true;
+                                }
+                                if (left && c.is_instruction_done() && !c.verif_state().pending_wait_for_memory) || g > 200 {
+                                    break;
+                                }
+                            }
+                        };
+                        let before = view(&c); // nothing has been executed since the instruction was placed
+                        to_boundary(&mut c);
+                        to_boundary(&mut c); // the LD and at most the NOP behind it
+                        let after = view(&c);
+                        if before == after { "pure".to_string() } else { format!("changed {} -> {}", before, after) }
+                    }
+                }
+                _ => bad(),
+            },
             ["spec.busd"] => {
                 let bus = m.bus();
                 let b = bus.verif_state();
